@@ -16,7 +16,7 @@ from ..oblig import PROVED, REFUTED, UNKNOWN, UNSUPPORTED, Obligation
 from ..smt import FALSE, TRUE, disj
 from ..values import B, Dyn, Fn, IteA, IteV, JoinA, K, Lit, Obj, OpA, QuoteA, S, Sym
 from .base import canon, parallel
-from .render import (POSITION_PART, ctx_arg, effective_ctx, equal_under, field_of, flat_calls, recv_key,
+from .render import (eval_spec, POSITION_PART, ctx_arg, effective_ctx, equal_under, field_of, flat_calls, recv_key,
                      render_targets, resolve, value_is)
 
 # helpers whose sites are checked in the run of their (only) caller, which fixes the context they receive
@@ -179,6 +179,59 @@ def check_one(item):
                         leak[k] = sorted(set(leak.get(k, [])) | set(dep))
                     else:
                         leak.setdefault(k, [])
+    # ---- C11 ns/decision: every clause of a statement builder is rendered with with_namespace == NS(self)
+    #      (bare positions: with_namespace == False)
+    if is_stmt and qb in ci.mro:
+        ns_res = {}
+        seen = set()
+        for o in run.outcomes:
+            if o.status == "raise":
+                continue
+            ex.st = o.state
+            spec_vals = None
+            for ef, g, in_loop in flat_calls(o.state.effects):
+                if ef.method != "get_sql" or ef.cid in seen:
+                    continue
+                seen.add(ef.cid)
+                cv = ctx_arg(ex, o.state, ef)
+                if cv is None:
+                    continue
+                passed = field_of(ex, o.state, cv, "with_namespace")
+                if passed is None:
+                    continue
+                pcg = o.state.pc + ([g] if g is not None else [])
+                rk = recv_key(ex, ef, o.state)
+                func_short = ef.site.split("|")[0]
+                fname = func_short.split(".")[-1]
+                bare = (fname == "_columns_sql") or (fname == "_set_sql" and rk.endswith(".0")) or \
+                    (fname == "_on_conflict_action_sql" and rk.endswith(".0"))
+                if fname in ("_on_conflict_sql", "_on_conflict_action_sql", "_with_sql") and not bare:
+                    continue            # unspecified positions
+                try:
+                    fp = ex.truth(resolve(ex, pcg, passed))
+                except Exception:
+                    continue
+                if bare:
+                    ok = ex.smt.implied(pcg, z3.Not(fp))
+                    why = "" if ok else "a bare position (INSERT column / SET target / ON CONFLICT target) may be qualified"
+                else:
+                    if spec_vals is None:
+                        spec_vals = [ex.truth(eval_spec(ex, o.state, "ns", n, [run.self_obj]))
+                                     for n in ("NS", "NS_setop_too")]
+                    ok = any(ex.smt.implied(pcg, fp == sv) for sv in spec_vals)
+                    why = "" if ok else f"with_namespace passed is {z3.simplify(fp)} but the rule NS(self) is {z3.simplify(spec_vals[0])}"
+                if not ok and not ex.smt.feasible(pcg):
+                    continue
+                k = (fname, rk, bare)
+                if k not in ns_res or (ns_res[k][0] and not ok):
+                    ns_res[k] = (ok, why)
+        for (fname, rk, bare), (ok, why) in sorted(ns_res.items()):
+            obs.append(Obligation("C11", f"{name}|ns/decision|{fname}|{rk}", "ns/decision", fi.short,
+                                  PROVED if ok else REFUTED,
+                                  detail=f"{rk} in {fname} is rendered with with_namespace == "
+                                         f"{'False (bare position)' if bare else 'NS(self) (the qualification rule of C11)'}",
+                                  reason=why[:600], witness={"family": "call", "oracle": "ns_decision",
+                                                             "args": [ci.short, fname, rk]}))
     for (func_short, rk, flag, want), v in sorted(site_res.items(), key=str):
         prop = "C12" if flag == "with_alias" else ("C11" if flag == "with_namespace" else "C10")
         kind = {"with_alias": "alias/site", "with_namespace": "ns/site"}.get(flag, "embed/site")
